@@ -167,10 +167,11 @@ func c17(c *core.Ctx, r *core.Report) {
 				continue
 			}
 			d := an.D().Of(op.Call.Common().Args[1])
+			roles := durationRoles(c)
 			switch op.Field.Name() {
-			case "sum":
+			case roles.sum:
 				r.Check(an.Strip(op.Call.Common().Args[1]) == durParam(add), "IterationDurations.Add#sum", an.Pos(c, op.Call), "sum += duration", "sum is increased by "+d)
-			case "count":
+			case roles.count:
 				r.Check(d == "1", "IterationDurations.Add#count", an.Pos(c, op.Call), "count += 1", "count is increased by "+d)
 			default:
 				r.Violation("IterationDurations.Add#"+op.Field.Name(), an.Pos(c, op.Call), "%s is accumulated with Add", op.Field.Name())
@@ -180,6 +181,10 @@ func c17(c *core.Ctx, r *core.Report) {
 
 	rule(r, "C17.R2", "aggregation correspondences: merge/drain pair each field with the same-named field and cover sum, count, min, max; Snapshot maps Count←count, Min←min, Max←max, Average←sum/count with a zero-count guard", func() {
 		hotClass, lifeClass := progressRoles(c)
+		roles := durationRoles(c)
+		if roles.mismatch != "" {
+			r.Violation("IterationDurations#roles", c.Pos(c.MustFn(ppkg, "IterationDurations.Snapshot").Pos()), "%sthe figures reported are not the ones maintained", roles.mismatch)
+		}
 		// every atomic field of the accumulator type
 		var fields []string
 		acc := c.Named(ppkg, "IterationDurations").Underlying().(*types.Struct)
@@ -244,17 +249,17 @@ func c17(c *core.Ctx, r *core.Report) {
 				d := src.String()
 				switch k {
 				case "Min":
-					r.Check(src.only("min") && len(src.ops) == 0, "Snapshot#Min", an.Pos(c, ret), "Min ← min", "Snapshot.Min is fed from "+d)
+					r.Check(src.only(roles.min) && len(src.ops) == 0, "Snapshot#Min", an.Pos(c, ret), "Min ← min", "Snapshot.Min is fed from "+d)
 				case "Max":
-					r.Check(src.only("max") && len(src.ops) == 0, "Snapshot#Max", an.Pos(c, ret), "Max ← max", "Snapshot.Max is fed from "+d)
+					r.Check(src.only(roles.max) && len(src.ops) == 0, "Snapshot#Max", an.Pos(c, ret), "Max ← max", "Snapshot.Max is fed from "+d)
 				case "Count":
-					r.Check(src.only("count") && len(src.ops) == 0 && src.constsWithin("0"), "Snapshot#Count", an.Pos(c, ret), "Count ← count", "Snapshot.Count is fed from "+d)
+					r.Check(src.only(roles.count) && len(src.ops) == 0 && src.constsWithin("0"), "Snapshot#Count", an.Pos(c, ret), "Count ← count", "Snapshot.Count is fed from "+d)
 				case "Average":
 					okk := len(src.quos) > 0 && src.constsWithin("0") && len(src.ops) == 1
 					guard := true
 					for _, q := range src.quos {
 						nx, dx := feedOf(q.X), feedOf(q.Y)
-						if !nx.only("sum") || len(nx.ops) != 0 || !dx.only("count") || len(dx.ops) != 0 {
+						if !nx.only(roles.sum) || len(nx.ops) != 0 || !dx.only(roles.count) || len(dx.ops) != 0 {
 							okk = false
 						}
 						g := false
@@ -268,7 +273,7 @@ func c17(c *core.Ctx, r *core.Report) {
 								x, y = y, x
 							}
 							k, isK := y.(*ssa.Const)
-							if !isK || k.Value == nil || k.Value.String() != "0" || !feedOf(gd.T(x)).only("count") {
+							if !isK || k.Value == nil || k.Value.String() != "0" || !feedOf(gd.T(x)).only(roles.count) {
 								continue
 							}
 							if (bo.Op == token.EQL && !gd.Polarity) || (bo.Op == token.NEQ && gd.Polarity) || (bo.Op == token.GTR && gd.Polarity) {
@@ -286,8 +291,9 @@ func c17(c *core.Ctx, r *core.Report) {
 	rule(r, "C17.R3", "lifetime count and sum only grow: on the lifetime accumulators they are touched only by Add and Load", func() {
 		n := 0
 		_, lifeClass := progressRoles(c)
+		roles := durationRoles(c)
 		for _, s := range durationAtomics(c) {
-			if !has(s.classes, lifeClass) || !(s.Field.Name() == "count" || s.Field.Name() == "sum") {
+			if !has(s.classes, lifeClass) || !(s.Field.Name() == roles.count || s.Field.Name() == roles.sum) {
 				continue
 			}
 			n++
@@ -311,6 +317,7 @@ func c17(c *core.Ctx, r *core.Report) {
 
 	rule(r, "C17.R4", "the lifetime minimum is overwritten by a period's minimum only on paths where it is unset (== 0) or the period's minimum is set (> 0)", func() {
 		upd := c.MustFn(ppkg, "IterationDurations.Update")
+		roles := durationRoles(c)
 		paths, err := an.DecisionPaths(upd, 4096)
 		if err != nil {
 			r.Undecided("Update#paths", c.Pos(upd.Pos()), "%v", err)
@@ -326,7 +333,7 @@ func c17(c *core.Ctx, r *core.Report) {
 					if call, ok := in.(ssa.CallInstruction); ok {
 						t := an.Callee(call)
 						if t != nil && t.Pkg != nil && t.Pkg.Pkg.Path() == "sync/atomic" && t.Name() == "Store" {
-							if f := an.FieldOfAddr(call.Common().Args[0]); f != nil && f.Name() == "min" && an.Strip(accBase(call.Common().Args[0])) == ssa.Value(upd.Params[0]) {
+							if f := an.FieldOfAddr(call.Common().Args[0]); f != nil && f.Name() == roles.min && an.Strip(accBase(call.Common().Args[0])) == ssa.Value(upd.Params[0]) {
 								store, val = in, call.Common().Args[1]
 							}
 						}
@@ -344,10 +351,10 @@ func c17(c *core.Ctx, r *core.Report) {
 					continue
 				}
 				xd, yd := an.D().Of(bo.X), an.D().Of(bo.Y)
-				ownMinLoad := strings.HasSuffix(xd, "Load($i.min)")
+				ownMinLoad := strings.HasSuffix(xd, "Load($recv."+roles.min+")")
 				if lc, isCall := an.Strip(bo.X).(*ssa.Call); isCall {
 					if lt := an.Callee(lc); lt != nil && lt.Pkg != nil && lt.Pkg.Pkg.Path() == "sync/atomic" && lt.Name() == "Load" {
-						if f := an.FieldOfAddr(lc.Call.Args[0]); f != nil && f.Name() == "min" && an.Strip(accBase(lc.Call.Args[0])) == ssa.Value(upd.Params[0]) {
+						if f := an.FieldOfAddr(lc.Call.Args[0]); f != nil && f.Name() == roles.min && an.Strip(accBase(lc.Call.Args[0])) == ssa.Value(upd.Params[0]) {
 							ownMinLoad = true
 						}
 					}
@@ -475,4 +482,137 @@ func feedOf(v ssa.Value) *feed {
 	}
 	walk(v, flatDepth)
 	return f
+}
+
+// durRoles names the four cells of the duration accumulator by what they are used for. When the fields carry the
+// usual names (sum, count, min, max) those are the roles. Otherwise the roles are read off twice and must agree:
+// from the snapshot (the cell feeding Count, Min, Max and the numerator of Average) and from Add (the cell
+// increased by the duration, the one increased by 1, the one overwritten when the duration is larger / smaller).
+type durRoles struct {
+	sum, count, min, max string
+	mismatch             string // the two readings disagree: reported by C17.R2
+}
+
+var durRolesCache = map[*core.Ctx]*durRoles{}
+
+func durationRoles(c *core.Ctx) *durRoles {
+	if dr, ok := durRolesCache[c]; ok {
+		return dr
+	}
+	dr := &durRoles{sum: "sum", count: "count", min: "min", max: "max"}
+	durRolesCache[c] = dr
+	ppkg := "internal/progress"
+	names := map[string]bool{}
+	for _, s := range durationAtomics(c) {
+		names[s.Field.Name()] = true
+	}
+	if names["sum"] && names["count"] && names["min"] && names["max"] {
+		return dr
+	}
+	// reading 1: the snapshot
+	snapR := map[string]string{}
+	one := func(f *feed) string {
+		if len(f.fields) != 1 {
+			return ""
+		}
+		for k := range f.fields {
+			return k
+		}
+		return ""
+	}
+	for _, ret := range an.Returns(c.MustFn(ppkg, "IterationDurations.Snapshot")) {
+		lit := an.StructLiteralOf(ret.Results[0])
+		if lit == nil {
+			continue
+		}
+		for k, v := range an.LiteralFields(lit) {
+			src := feedOf(v)
+			switch k {
+			case "Min":
+				snapR["min"] = one(src)
+			case "Max":
+				snapR["max"] = one(src)
+			case "Count":
+				snapR["count"] = one(src)
+			case "Average":
+				for _, q := range src.quos {
+					snapR["sum"] = one(feedOf(q.X))
+				}
+			}
+		}
+	}
+	// reading 2: Add
+	addR := map[string]string{}
+	add := c.MustFn(ppkg, "IterationDurations.Add")
+	var dur ssa.Value
+	for _, p := range add.Params {
+		if b, ok := p.Type().Underlying().(*types.Basic); ok && b.Kind() == types.Int64 {
+			dur = p
+		}
+	}
+	loadedField := func(v ssa.Value) string {
+		call, ok := an.Strip(v).(*ssa.Call)
+		if !ok {
+			return ""
+		}
+		t := an.Callee(call)
+		if t == nil || t.Pkg == nil || t.Pkg.Pkg.Path() != "sync/atomic" || t.Name() != "Load" {
+			return ""
+		}
+		if f := an.FieldOfAddr(call.Call.Args[0]); f != nil {
+			return f.Name()
+		}
+		return ""
+	}
+	for _, op := range an.AtomicOps([]*ssa.Function{add}) {
+		if op.Op != "Add" {
+			continue
+		}
+		arg := an.Strip(op.Call.Common().Args[1])
+		if arg == dur {
+			addR["sum"] = op.Field.Name()
+		} else if k, isK := arg.(*ssa.Const); isK && k.Value != nil && k.Int64() == 1 {
+			addR["count"] = op.Field.Name()
+		}
+	}
+	an.Instrs(add, func(in ssa.Instruction) {
+		bo, ok := in.(*ssa.BinOp)
+		if !ok {
+			return
+		}
+		x, y, op := an.Strip(bo.X), an.Strip(bo.Y), bo.Op
+		if y == dur {
+			x, y, op = y, x, mirrorCmp(op)
+		}
+		if x != dur {
+			return
+		}
+		f := loadedField(y)
+		if f == "" {
+			return
+		}
+		switch op {
+		case token.GTR, token.GEQ:
+			addR["max"] = f
+		case token.LSS, token.LEQ:
+			addR["min"] = f
+		}
+	})
+	pick := func(role string, dst *string) {
+		s, a := snapR[role], addR[role]
+		switch {
+		case s != "" && a != "" && s != a:
+			dr.mismatch += sprintf("the snapshot reports field %s as the %s, while Add maintains field %s as the %s; ", s, role, a, role)
+			*dst = s
+		case s != "":
+			*dst = s
+		case a != "":
+			*dst = a
+		}
+	}
+	pick("sum", &dr.sum)
+	pick("count", &dr.count)
+	pick("min", &dr.min)
+	pick("max", &dr.max)
+	return dr
 }
